@@ -486,6 +486,16 @@ func (nw *network) apply(c Case, ev Ev, res *simResult) {
 			nw.appCommand(ev.A, "unregister", p)
 			res.ops++
 		}
+	case "bulk":
+		// the router's applications announce Cnt prefixes of their own: a big prefix table
+		if nw.nodes[ev.A].up {
+			res.classes["bulk-announcement"] = true
+			for j := 0; j < ev.Cnt; j++ {
+				nw.appCommand(ev.A, "register", fmt.Sprintf("/bulk/r%d/p%d", ev.A, j))
+				res.ops++
+				nw.runFor(2 * time.Millisecond)
+			}
+		}
 	case "burst":
 		if nw.nodes[ev.A].up {
 			res.classes["burst"] = true
